@@ -189,7 +189,7 @@ class SWCLike(ABC):
             )
             fname = swc_path
 
-        extra_cols = extra_cols or []
+        extra_cols = list(extra_cols) if extra_cols is not None else []
         extra_cols.extend(k for k, t in eswc_cols)
         return self.to_swc(fname, extra_cols=extra_cols, **kwargs)  # type: ignore
 
